@@ -306,7 +306,7 @@ func checkC18(t *testing.T, sc *Scenario) *Verdict {
 		if len(ans) != 3*len(refs) {
 			return ""
 		}
-		pr := &c18Probe{at: i, disk: DiskFiles(), view: append([]string(nil), e.Result().View[URI(mainPath)]...)}
+		pr := &c18Probe{at: i, disk: DiskFiles(), view: append([]string(nil), e.Result().View[ViewURI(mainPath)]...)}
 		for k := range refs {
 			pr.defs = append(pr.defs, defTarget(ans[3*k].Result))
 			pr.hovers = append(pr.hovers, ans[3*k+1].Result)
@@ -415,7 +415,7 @@ func checkC18(t *testing.T, sc *Scenario) *Verdict {
 	if fr.Outcome != OutOK {
 		return bad("c18-fresh-run-"+fr.Outcome, fr.Outcome, fr.Detail)
 	}
-	fv := fr.View[URI(mainPath)]
+	fv := fr.View[ViewURI(mainPath)]
 	if strings.Join(fv, "\n") != strings.Join(last.view, "\n") {
 		return bad("c18-differs-from-fresh", "main-file diagnostics after events", fmt.Sprintf("history: %v\nfresh:   %v", last.view, fv))
 	}
